@@ -13,4 +13,5 @@ Extraction "../ocaml/c02/model.ml"
   spec_hdr_layout spec_enc_header spec_dec_header
   spec_vlr_hdr_layout spec_enc_vlr_header spec_dec_vlr_header
   spec_eb_descriptor spec_enc_eb_descriptor spec_dec_eb_descriptor layout_names
-  record_at spec_dec_records append_session edit_record.
+  record_at spec_dec_records append_session edit_record
+  handover_accepts ebs_of_dims assign_elems.
